@@ -4,7 +4,7 @@
    Section hypotheses of the lemmas (assumptions, not axioms): a backend batch is atomic (the database
    only ever is [apply_all] of a prefix of the batch list); executing a block is a function of state
    and block ([exec]); a header-hash page holds more than one hash. *)
-From NG Require Import Common.Tactics Node.Crash Node.CrashProofs Node.Stages Node.StagesProofs Node.StagesWitness Node.StagesMain Node.CrashGC Node.CrashGCProofs Node.CrashGCWitness Node.ResetExact Node.SyncRestore Node.SyncRestoreProofs.
+From NG Require Import Common.Tactics Node.Crash Node.CrashProofs Node.Stages Node.StagesProofs Node.StagesWitness Node.StagesMain Node.CrashGC Node.CrashGCProofs Node.CrashGCWitness Node.ResetExact Node.SyncRestore Node.SyncRestoreProofs Node.StorageSync Node.StorageSyncProofs.
 Open Scope N_scope.
 
 Section C02.
@@ -236,3 +236,23 @@ Theorem C02_restore_single_refuted :
   sr_prefixes (atomic_batches N N sr_effects [1]) = [true; true].
 Proof. exact restore_single_refuted. Qed.
 Print Assumptions C02_restore_single_refuted.
+
+(* ---- contract-storage-based state synchronisation (Node/StorageSync.v) ----
+   When every item batch reaches the database together with its checkpoint (one atomic batch: items of the batch,
+   the trie of the new intermediate root, removal of what only the previous root needed, checkpoint), then after
+   ANY number k of batches the persisted checkpoint's root is present in the persisted trie, the persisted items
+   are exactly those up to the checkpoint, and start-up resumes to exactly the database of the uninterrupted
+   synchronisation. *)
+Theorem C02_storage_sync_resumable : forall n k, (k <= n)%nat ->
+  SInv (sapply_all sempty (firstn k (sync_batches unit n))) /\
+  resume n (sapply_all sempty (firstn k (sync_batches unit n))) = Some (sapply_all sempty (sync_batches unit n)).
+Proof. exact storage_sync_resumable. Qed.
+Print Assumptions C02_storage_sync_resumable.
+
+(* the variant that persists the checkpoint one flush late cannot resume after the second flush (the
+   checkpoint names a root the reference-counted trie has already dropped); the atomic one can *)
+Theorem C02_storage_sync_late_refuted :
+  resume 3 (sapply_all sempty (firstn 2 (sync_batches late_unit 3))) = None /\
+  (exists d, resume 3 (sapply_all sempty (firstn 2 (sync_batches unit 3))) = Some d).
+Proof. exact storage_sync_late_refuted. Qed.
+Print Assumptions C02_storage_sync_late_refuted.
